@@ -240,7 +240,8 @@ def builder_setters(ctx, rule, fields, floor=None):
             continue
         o = outs[0]
         written = {}
-        by_ref = b.local_ty(1).lstrip().startswith('&')
+        # (what the setter changes: the builder behind `&mut self`, or the builder it hands back by value)
+        by_ref = not f.norm(b.local_ty(0) or '').lstrip().startswith(adt)
         if by_ref:
             for e in o.effects:
                 tgt = e[0]
@@ -252,6 +253,8 @@ def builder_setters(ctx, rule, fields, floor=None):
                 for k, v in r[3]:
                     if v != SYM('self.' + k):
                         written[k] = v
+                if r[1].startswith('?sym:self') and not written:
+                    pass
             elif r != SYM('self'):
                 rep.fail(rule, key, where(b), 'the by-value setter does not return the builder', 'undecidable-shape')
                 continue
@@ -328,4 +331,41 @@ def named_argument_wiring(ctx, rule, bodies, min_sites=0, what='the caller'):
                       'the call of %s passes `%s` in the position of parameter `%s`: the callee receives the requested values under '
                       'the wrong names' % (cpath, wrong[0][1] if wrong else '', params[wrong[0][0]] if wrong else ''))
     rep.floor(rule, 'calls whose arguments are named like the callee\'s parameters', n, min_sites)
+    # struct literals: a field that is given a plain named local / parameter whose NAME is that of ANOTHER field of the same struct
+    # (`MCOptimiser { max_step_size: kt_ratio, .. }`, `LJ2 { epsilon: sigma, .. }` in `fn new(x, y, sigma)`), while that other
+    # field is not given it: the value sits under the wrong name
+    for b in bodies:
+        tr = Tracer(b)
+        for bi, bb in enumerate(b.blocks):
+            for si, st in enumerate(bb['stmts']):
+                if st['s'] != 'assign' or st['rv']['r'] != 'aggr' or st['rv'].get('agg') != 'adt':
+                    continue
+                rv = st['rv']
+                fields = list(rv.get('fields') or [])
+                if len(fields) != len(rv['ops']):
+                    continue
+                adt = f.adts.get(f.norm(str(rv.get('adt') or '')).split('<')[0]) or {}
+                allf = [fl['name'] for fl in adt.get('fields') or []] or fields
+                src = {}
+                for fname, op in zip(fields, rv['ops']):
+                    nm, x = None, (op['l'] if 'l' in op and not op['p'] else None)
+                    for _ in range(8):
+                        if x is None:
+                            break
+                        if b.local_name(x):
+                            nm = b.local_name(x)
+                            break
+                        ds = [d for d in tr.defs.of(x)]
+                        if len(ds) != 1 or ds[0][2] != 'assign' or ds[0][3]['r'] != 'use' or 'l' not in ds[0][3]['a'] or ds[0][3]['a']['p']:
+                            break
+                        x = ds[0][3]['a']['l']
+                    src[fname] = nm
+                named = [(fn_, nm) for fn_, nm in src.items() if nm and nm in allf]
+                if not named:
+                    continue
+                wrong = [(fn_, nm) for fn_, nm in named if nm != fn_]
+                rep.check(not wrong, rule, 'fields-from-same-named-values:%s@%s' % (f.norm(str(rv.get('adt'))).split('::')[-1], b.fn_name or b.path),
+                          where(b, bi, si), 'fields %s take the values of their own names' % [x[0] for x in named],
+                          'the literal gives field `%s` the value named `%s`, the name of another field of the same struct: the value '
+                          'sits under the wrong name' % (wrong[0][0] if wrong else '', wrong[0][1] if wrong else ''))
     return n
